@@ -44,7 +44,7 @@ pub fn families() -> Vec<Box<dyn Family>> {
         ),
         family(
             "sub_exh",
-            "G-SUB: every pair of sequences over {0,1} (quick) / {0,1,2} (thorough) with length <= 4 x every (old_range,new_range) x 3 algorithms x carriers {slice, StrictLookup red zone, StrictLookup based near usize::MAX, IdentifyDistinct offset lookups, constant-hash items}; shift-equivalence against the extracted slices",
+            "G-SUB: every pair of sequences over {0,1} (quick) / {0,1,2} (thorough) with length <= 4 x every (old_range,new_range) x 3 algorithms x carriers {slice, StrictLookup red zone, StrictLookup based near usize::MAX, IdentifyDistinct offset lookups, constant-hash items, both ranges in ONE shared buffer, lookups whose index space straddles 2^32}; shift-equivalence against the extracted slices",
             true,
             4,
             |cfg| {
@@ -77,7 +77,7 @@ pub fn families() -> Vec<Box<dyn Family>> {
                 let (a, b) = gen::rand_pair(&mut rng, if cfg.tiny { 10 } else { 400 });
                 let (or, nr) = gen::rand_ranges(&mut rng, a.len(), b.len());
                 let alg = ALGS[rng.below(3)];
-                let carrier = 1u32 << rng.below(5);
+                let carrier = 1u32 << rng.below(7);
                 out.sample(|| format!("alg={} old={} range {:?} new={} range {:?}", alg_name(alg), fmt_seq(&a), or, fmt_seq(&b), nr));
                 sub_case(alg, &a, or.clone(), &b, nr.clone(), carrier, out);
                 if idx % 8 == 0 && a.len() <= 40 && b.len() <= 40 {
@@ -110,6 +110,22 @@ pub fn families() -> Vec<Box<dyn Family>> {
                     let b: Vec<u32> = if rng.chance(1, 2) { (0..lb).map(|_| rng.below(10) as u32).collect() } else { gen::point_edits(&mut rng, &a, 3, 10, 44) };
                     tolerance_case(&a, &b, false, out);
                 }
+            },
+        ),
+        family(
+            "structured",
+            "inputs with special STRUCTURE (all-equal, alternating, palindromes, reversal, prefix, suffix, rotation, doubled, interleaving, halves swapped, ...) up to 60 items x 3 algorithms x 5 carriers with random sub-ranges + shift-equivalence",
+            false,
+            16,
+            |cfg| cfg.n(8_000, 160_000),
+            |idx, cfg, out| {
+                let mut rng = Rng::for_case(cfg.seed, "c01.structured", idx);
+                let (a, b, kind) = gen::structured_pair(&mut rng, if cfg.tiny { 6 } else { 60 });
+                let (a, b) = if rng.chance(1, 2) { (a, b) } else { (b, a) };
+                let (or, nr) = if rng.chance(1, 2) { (0..a.len(), 0..b.len()) } else { gen::rand_ranges(&mut rng, a.len(), b.len()) };
+                let alg = ALGS[rng.below(3)];
+                out.sample(|| format!("alg={} structure={} old={} range {:?} new={} range {:?}", alg_name(alg), kind, fmt_seq(&a), or, fmt_seq(&b), nr));
+                sub_case(alg, &a, or, &b, nr, 0xff, out);
             },
         ),
         family(
@@ -249,7 +265,8 @@ fn full_pair(a: &[u8], b: &[u8], out: &mut Local) {
 }
 
 /// `carriers` is a bit mask: 1 slice(+shift-equivalence), 2 StrictLookup, 4
-/// StrictLookup near usize::MAX, 8 IdentifyDistinct, 16 constant-hash items.
+/// StrictLookup near usize::MAX, 8 IdentifyDistinct, 16 constant-hash items,
+/// 32 one shared buffer, 64 lookups straddling 2^32.
 fn sub_case(
     alg: Algorithm,
     a: &[u32],
@@ -352,6 +369,47 @@ fn sub_case(
                 }
             }
         }
+    }
+
+    // (6) old and new are ONE object: both ranges index the same buffer
+    if carriers & 32 != 0 {
+        let mut buf: Vec<u32> = a.to_vec();
+        buf.extend_from_slice(b);
+        let (or2, nr2) = (or.clone(), a.len() + nr.start..a.len() + nr.end);
+        let eqs = |o: usize, n: usize| buf[o] == buf[n];
+        out.eval();
+        let r = traced(entry, alg, &buf[..], or2.clone(), &buf[..], nr2.clone(), &eqs, None, false);
+        if report_trace(out, "diff of two ranges of ONE shared buffer", &ctx, &r) {
+            if let (Some(be), Ok(m)) = (&base_evs, &r) {
+                let shifted: Vec<Ev> = be.iter().map(|e| e.shifted(0, a.len())).collect();
+                if shifted != m.evs {
+                    out.violation("shift_equivalence", format!("{}: two ranges of one shared buffer give {} but separate slices give {}", ctx(), fmt_evs(&m.evs), fmt_evs(be)));
+                }
+            }
+        }
+        out.count("shared_buffer_runs");
+    }
+
+    // (7) red-zone lookups whose index space straddles 2^32 (u32::MAX is a valid index)
+    if carriers & 64 != 0 && a.len() <= 1000 && b.len() <= 1000 && usize::BITS >= 64 {
+        // place the ranges so that index 2^32 - 1 falls inside them when they are non-empty
+        let pivot = (1usize << 32) - 1;
+        let base_o = pivot - or.start - (or.len().saturating_sub(1)) / 2;
+        let base_n = pivot - nr.start - (nr.len().saturating_sub(1)).min(or.len() / 3);
+        let sa = StrictLookup { data: a, allowed: base_o + or.start..base_o + or.end, base: base_o };
+        let sb = StrictLookup { data: b, allowed: base_n + nr.start..base_n + nr.end, base: base_n };
+        let eqh = |o: usize, n: usize| a[o - base_o] == b[n - base_n];
+        out.eval();
+        let r = traced(entry, alg, &sa, base_o + or.start..base_o + or.end, &sb, base_n + nr.start..base_n + nr.end, &eqh, None, false);
+        if report_trace(out, "diff through lookups whose index space straddles 2^32", &ctx, &r) {
+            if let (Some(be), Ok(m)) = (&base_evs, &r) {
+                let shifted: Vec<Ev> = be.iter().map(|e| e.shifted(base_o, base_n)).collect();
+                if shifted != m.evs {
+                    out.violation("shift_equivalence", format!("{}: lookups based around 2^32 give {} but slices give {}", ctx(), fmt_evs(&m.evs), fmt_evs(be)));
+                }
+            }
+        }
+        out.count("lookups_around_2_pow_32_runs");
     }
 
     // (5) constant-hash items
